@@ -201,6 +201,10 @@ def r2_colours(ctx):
     rid = "C05.R2"
     ctx.rule(rid, "is_valid tests the side that just moved, is_current_in_check the side to move, is_in_check the given colour; _is_in_check_by_bits pairs (colour, other) and uses that colour's king", floor=6)
     prog = ctx.prog
+    # the rule reads the chain is_valid / is_current_in_check / is_in_check -> _is_in_check_by_bits -> _is_square_in_check
+    # by name and by parameter position: all of it has to be there as reviewed
+    for anchor in ("_is_in_check_by_bits", "_is_square_in_check"):
+        ctx.fn(rid, BB + anchor)
     def ret_of(key):
         f = ctx.fn(rid, key)
         try:
